@@ -6,7 +6,7 @@
    plus the checkers the run-time tie evaluates on the implementation's outputs.
    Definitions only - no proofs. *)
 From Coq Require Import ZArith List Bool String.
-Require Export UV.C01.Isa UV.C01.Machine UV.C01.Shadow.
+Require Export UV.C01.Isa UV.C01.ArchCtx UV.C01.Machine UV.C01.Shadow.
 Require Import UV.Gen.Stubs.
 Import ListNotations.
 Local Open Scope Z_scope.
@@ -20,43 +20,7 @@ Definition with_saved_errno {A} (inner : Z -> A * Z) (errno : Z) : A * Z :=
   let '(r, _) := inner errno in
   (r, saved).
 
-(* ------------------------------------------------------------------ (iv) arch context *)
-(* mcount_save_arch_context / mcount_restore_arch_context (arch/x86_64/mcount-support.c), as the
-   generated lists arch_ctx_save / arch_ctx_restore.  ctx->xmm[] is a byte-addressed array of
-   8-byte cells; a register is (low, high). *)
-Definition xfile := nat -> Z * Z.
-Definition xset (x : xfile) (r : nat) (v : Z * Z) : xfile := fun i => if Nat.eqb i r then v else x i.
-Definition cset (c : Z -> Z) (a : Z) (v : Z) : Z -> Z := fun i => if i =? a then v else c i.
-
-Definition full_width (m : xmov) : bool :=
-  match m with Xmovdqu | Xmovups => true | Xmovsd | Xmovq => false end.
-
-Definition xop_exec (slot_bytes : Z) (s : xfile * (Z -> Z)) (o : xop) : xfile * (Z -> Z) :=
-  let '(x, c) := s in
-  match o with
-  | XSave m r k =>
-      let off := Z.of_nat k * slot_bytes in
-      if full_width m then (x, cset (cset c off (fst (x r))) (off + 8) (snd (x r)))
-      else (x, cset c off (fst (x r)))                       (* movsd/movq store: low half only *)
-  | XLoad m k r =>
-      let off := Z.of_nat k * slot_bytes in
-      if full_width m then (xset x r (c off, c (off + 8)), c)
-      else (xset x r (c off, 0), c)                          (* movsd/movq load: high half cleared *)
-  end.
-
-(* save; arbitrary code that may use every xmm register (a script, libc's sscanf); restore *)
-Definition arch_roundtrip (slot_bytes : Z) (save restore : list xop) (x : xfile) (c0 : Z -> Z)
-           (clobber : xfile) : xfile :=
-  let '(_, c1) := fold_left (xop_exec slot_bytes) save (x, c0) in
-  fst (fold_left (xop_exec slot_bytes) restore (clobber, c1)).
-
-Definition arch_roundtrip_now := arch_roundtrip arch_ctx_slot_bytes arch_ctx_save arch_ctx_restore.
-
-(* the code before the fix: movsd both ways into 8-byte slots *)
-Definition legacy_save : list xop := map (fun i => XSave Xmovsd i i) (seq 0 8).
-Definition legacy_restore : list xop := map (fun i => XLoad Xmovsd i i) (seq 0 8).
-Definition arch_roundtrip_legacy := arch_roundtrip 8 legacy_save legacy_restore.
-
+(* ------------------------------------------------------------------ (iv) arch context: see ArchCtx.v *)
 (* argument registers xmm0-7 hold what they held before *)
 Definition zeq (a b : Z) : bool := a =? b.
 Definition pair_eqb (a b : Z * Z) : bool := zeq (fst a) (fst b) && zeq (snd a) (snd b).
@@ -127,3 +91,13 @@ Record xmm_case := { xc_before : list (Z * Z); xc_clobber : list (Z * Z); xc_aft
 Definition xmm_agrees (c : xmm_case) : bool :=
   list_eqb pair_eqb (xlist (arch_roundtrip_now (xof (xc_before c)) (fun _ => 0) (xof (xc_clobber c)))) (xc_after c).
 Definition xmm_ok (c : xmm_case) : bool := ok_xmm (xc_before c) (xc_after c).
+
+(* hook-call case: xmm0..15 when the stub calls the C wrapper, and when the wrapper returns, while a libc
+   function reached from the hook overwrites every xmm register *)
+Record hook_xmm_case := { hx_hook : string; hx_before : list (Z * Z); hx_after : list (Z * Z) }.
+Definition w_ones : world :=
+  {| w_regs := fun _ _ => 0; w_mem := fun _ _ => 0; w_zf := fun _ => false; w_glob := fun _ _ => 0;
+     w_xmm := fun _ _ => (18446744073709551615, 18446744073709551615); w_ctx := fun _ _ => 0 |}.
+Definition hook_xmm_agrees (c : hook_xmm_case) : bool :=
+  list_eqb pair_eqb (firstn 8 (xlist (c_call_xmm w_ones (hx_hook c) 0 (xof (hx_before c))))) (firstn 8 (hx_after c)).
+Definition hook_xmm_ok (c : hook_xmm_case) : bool := ok_xmm (hx_before c) (hx_after c).
